@@ -219,7 +219,73 @@ theorem classHelp_sim (F : Facts) (self : PRef) (hS : S self) (trailing : Option
     | true => exact ephParse_sim F _ _ h1
     | false => exact halt_sim _ (ephParse_sim F _ _ h1)
 
-theorem tokStep_sim (F : Facts) (d : PDesc) (p : Nat) (self : PRef) (valId : Nat) (t : Tok)
+/-- the read of `dump_kwargs` comes after its write -/
+theorem dumpBody_sim (F : Facts) (hF : F.dkSetInSerialize = true) (p : Nat) (dk : DK) (t : Tail) (h : RunSim K S r r') :
+    RunSim K S (dumpBody F p dk t r) (dumpBody F p dk t r') := by
+  unfold dumpBody
+  have h1 : RunSim K S (r.noteW fun w => .linked (w.linked p)) (r'.noteW fun w => .linked (w.linked p)) := by
+    apply noteW_sim
+    · intro w w' hag _ _
+      rw [hag.linked]
+    · exact h
+  apply when_sim _ _ h1
+  intro a a' ha
+  rw [hF]
+  simp only [Run.when, if_true, Bool.not_true, Bool.false_eq_true, if_false]
+  obtain ⟨hag, hk, haa, hi, hs⟩ := upd_sim (respects_setDk dk) ha
+  split
+  · exact ⟨hag, hk, haa, by simp [Run.noteW, Run.note, Run.upd, setDk, ha.infl], hs⟩
+  · exact ⟨hag, hk, haa, hi, hs⟩
+
+theorem dumpFull_sim (F : Facts) (hF : F.dkSetInSerialize = true) (p : Nat) (dk : DK) (sd : Bool) (t : Tail) (fail : Outcome)
+    (h : RunSim K S r r') : RunSim K S (dumpFull F p dk sd t fail r) (dumpFull F p dk sd t fail r') := by
+  unfold dumpFull
+  apply when_sim _ _ (dumpBody_sim F hF p dk t h)
+  intro a a' ha
+  split
+  · exact halt_sim _ ha
+  · exact haltIf_sim _ _ (when_sim _ (fun _ _ hh => upd_sim (respects_setDk _) hh) ha)
+
+theorem revalidate_sim (F : Facts) (p : Nat) (valId : Nat) (t : Tail) (fail : Outcome) (h : RunSim K S r r') :
+    RunSim K S (revalidate F p valId t fail r) (revalidate F p valId t fail r') := by
+  unfold revalidate
+  apply withCtx_sim F _ _ _ h
+  intro a a' ha
+  apply haltIf_sim
+  apply when_sim _ (fun _ _ hh => adaptDc_sim F p _ _ _ hh)
+  apply when_sim _ (fun _ _ hh => adaptClass_sim F p hh)
+  exact ha
+
+theorem validateBody_sim (F : Facts) (p : Nat) (valId : Nat) (t : Tail) (fail : Outcome) (h : RunSim K S r r') :
+    RunSim K S (validateBody F p valId t fail r) (validateBody F p valId t fail r') := by
+  unfold validateBody
+  have h0 : RunSim K S (r.noteW fun w => .lenient w.lenient) (r'.noteW fun w => .lenient w.lenient) := by
+    apply noteW_sim
+    · intro w w' hag _ _
+      rw [hag.lenient]
+    · exact h
+  simp only []
+  rw [h0.agree.lenient]
+  split
+  · exact h0
+  · exact revalidate_sim F p valId t fail h0
+
+theorem printAndExit_sim (F : Facts) (hF : F.dkSetInSerialize = true) (d : PDesc) (p : Nat) (pd : Pending) (t : Tail)
+    (early : Bool) (h : RunSim K S r r') :
+    RunSim K S (printAndExit F d p pd t early r) (printAndExit F d p pd t early r') := by
+  unfold printAndExit
+  simp only []
+  apply live_sim
+  · intro a a' ha
+    apply halt_sim
+    exact when_sim _ (fun _ _ hh => upd_sim (respects_setPending p none) hh) ha
+  · apply withCtx_sim F _ _ _ h
+    intro a a' ha
+    split
+    · exact halt_sim _ ha
+    · exact dumpFull_sim F hF p _ _ _ _ ha
+
+theorem tokStep_sim (F : Facts) (hF : F.dkSetInSerialize = true) (d : PDesc) (p : Nat) (self : PRef) (valId : Nat) (t : Tok)
     (hS : S self ∨ ∀ tr, t.kind ≠ .classHelp tr) (h : RunSim K S r r') :
     RunSim K S (tokStep F d p self valId r t) (tokStep F d p self valId r' t) := by
   unfold tokStep
@@ -243,6 +309,19 @@ theorem tokStep_sim (F : Facts) (d : PDesc) (p : Nat) (self : PRef) (valId : Nat
     split
     · exact halt_sim _ ha
     · exact storeRequest_sim p self f ha
+  | cfg dumpFails =>
+    simp only []
+    split
+    · exact halt_sim _ ha
+    · have hp : a.w.pending p = a'.w.pending p := by rw [ha.agree.pending]
+      rw [← hp]
+      cases self with
+      | root q =>
+        cases a.w.pending p with
+        | some pd => exact printAndExit_sim F hF d p pd _ _ ha
+        | none => exact ha
+      | sub q i => exact ha
+      | eph => exact ha
   | help =>
     simp only []
     exact halt_sim _ ha
@@ -254,7 +333,7 @@ theorem tokStep_sim (F : Facts) (d : PDesc) (p : Nat) (self : PRef) (valId : Nat
       · exact classHelp_sim F self hS trailing _ ha
       · exact absurd hk (hS trailing)
 
-theorem runToks_sim (F : Facts) (d : PDesc) (p : Nat) (self : PRef) (valId : Nat) (toks : List Tok)
+theorem runToks_sim (F : Facts) (hF : F.dkSetInSerialize = true) (d : PDesc) (p : Nat) (self : PRef) (valId : Nat) (toks : List Tok)
     (hS : S self ∨ ∀ t ∈ toks, ∀ tr, t.kind ≠ .classHelp tr) : ∀ {r r' : Run}, RunSim K S r r' →
     RunSim K S (runToks F d p self valId toks r) (runToks F d p self valId toks r') := by
   induction toks with
@@ -270,7 +349,7 @@ theorem runToks_sim (F : Facts) (d : PDesc) (p : Nat) (self : PRef) (valId : Nat
       rcases hS with hS | hS
       · exact Or.inl hS
       · exact Or.inr (fun t' ht' => hS t' (by simp [ht']))
-    exact ih h2 (tokStep_sim F d p self valId t h1 h)
+    exact ih h2 (tokStep_sim F hF d p self valId t h1 h)
 
 theorem vtoks_no_classHelp (vs : List VTok) : ∀ t ∈ vs.map VTok.toTok, ∀ tr, t.kind ≠ .classHelp tr := by
   intro t ht f
@@ -278,53 +357,6 @@ theorem vtoks_no_classHelp (vs : List VTok) : ∀ t ∈ vs.map VTok.toTok, ∀ t
   obtain ⟨v, _, rfl⟩ := ht
   unfold VTok.toTok
   cases v.kind <;> simp
-
-/-- the read of `dump_kwargs` comes after its write -/
-theorem dumpBody_sim (F : Facts) (hF : F.dkSetInSerialize = true) (p : Nat) (dk : DK) (t : Tail) (h : RunSim K S r r') :
-    RunSim K S (dumpBody F p dk t r) (dumpBody F p dk t r') := by
-  unfold dumpBody
-  have h1 : RunSim K S (r.noteW fun w => .linked (w.linked p)) (r'.noteW fun w => .linked (w.linked p)) := by
-    apply noteW_sim
-    · intro w w' hag _ _
-      rw [hag.linked]
-    · exact h
-  apply when_sim _ _ h1
-  intro a a' ha
-  rw [hF]
-  simp only [Run.when, if_true, Bool.not_true, Bool.false_eq_true, if_false]
-  obtain ⟨hag, hk, haa, hi, hs⟩ := upd_sim (respects_setDk dk) ha
-  split
-  · exact ⟨hag, hk, haa, by simp [Run.noteW, Run.note, Run.upd, setDk, ha.infl], hs⟩
-  · exact ⟨hag, hk, haa, hi, hs⟩
-
-theorem revalidate_sim (F : Facts) (p : Nat) (valId : Nat) (t : Tail) (fail : Outcome) (h : RunSim K S r r') :
-    RunSim K S (revalidate F p valId t fail r) (revalidate F p valId t fail r') := by
-  unfold revalidate
-  apply haltIf_sim
-  apply when_sim _ (fun _ _ hh => adaptDc_sim F p _ _ _ hh)
-  apply when_sim _ (fun _ _ hh => adaptClass_sim F p hh)
-  exact h
-
-theorem validateBody_sim (F : Facts) (p : Nat) (valId : Nat) (t : Tail) (fail : Outcome) (h : RunSim K S r r') :
-    RunSim K S (validateBody F p valId t fail r) (validateBody F p valId t fail r') := by
-  unfold validateBody
-  have h0 : RunSim K S (r.noteW fun w => .lenient w.lenient) (r'.noteW fun w => .lenient w.lenient) := by
-    apply noteW_sim
-    · intro w w' hag _ _
-      rw [hag.lenient]
-    · exact h
-  simp only []
-  rw [h0.agree.lenient]
-  split
-  · exact h0
-  · exact revalidate_sim F p valId t fail h0
-
-theorem printAndExit_sim (F : Facts) (hF : F.dkSetInSerialize = true) (p : Nat) (pd : Pending) (t : Tail)
-    (h : RunSim K S r r') : RunSim K S (printAndExit F p pd t r) (printAndExit F p pd t r') := by
-  unfold printAndExit
-  apply halt_sim
-  apply when_sim _ (fun _ _ hh => upd_sim (respects_setPending p none) hh)
-  exact withCtx_sim F _ _ (fun _ _ hh => dumpBody_sim F hF p _ t hh) h
 
 theorem parseCommon_sim (F : Facts) (hF : F.dkSetInSerialize = true) (d : PDesc) (p : Nat) (valId : Nat) (t : Tail)
     (h : RunSim K S r r') :
@@ -337,10 +369,10 @@ theorem parseCommon_sim (F : Facts) (hF : F.dkSetInSerialize = true) (d : PDesc)
   · have hp : a.w.pending p = a'.w.pending p := by rw [ha.agree.pending]
     rw [← hp]
     cases a.w.pending p with
-    | some pd => exact printAndExit_sim F hF p pd t ha
+    | some pd => exact printAndExit_sim F hF d p pd t false ha
     | none => exact withCtx_sim F none _ (fun _ _ hh => validateBody_sim F p valId t _ hh) ha
 
-theorem subCall_sim (F : Facts) (hA : F.argsBeforeParse = true) (hK : K) (d : PDesc) (p : Nat) (sc : SubCall)
+theorem subCall_sim (F : Facts) (hA : F.argsBeforeParse = true) (hDk : F.dkSetInSerialize = true) (hK : K) (d : PDesc) (p : Nat) (sc : SubCall)
     (h : RunSim K S r r') : RunSim K S (subCall F d p sc r) (subCall F d p sc r') := by
   unfold subCall
   apply live_sim _ h
@@ -383,7 +415,7 @@ theorem subCall_sim (F : Facts) (hA : F.argsBeforeParse = true) (hK : K) (d : PD
           (if F.sapSetAroundParse = true then r.upd (setSap (PRef.sub p sc.idx)) else r))
     (by
       intro b b' hb
-      apply runToks_sim F d p _ _ _ (Or.inl (Or.inr rfl))
+      apply runToks_sim F hDk d p _ _ _ (Or.inl (Or.inr rfl))
       split
       · exact upd_sim (respects_setSap _) hb
       · exact hb) h4
@@ -408,13 +440,13 @@ theorem parseArgsBody_sim (F : Facts) (hA : F.argsBeforeParse = true) (hK : F.kw
   have h1 : RunSim True S
       (runToks F d p (.root p) a.id a.toks (if F.sapSetAroundParse = true then b.upd (setSap (.root p)) else b))
       (runToks F d p (.root p) a.id a.toks (if F.sapSetAroundParse = true then b'.upd (setSap (.root p)) else b')) := by
-    apply runToks_sim F d p _ _ _ (Or.inl hS)
+    apply runToks_sim F hDk d p _ _ _ (Or.inl hS)
     split
     · exact upd_sim (respects_setSap _) hb
     · exact hb
   cases a.sub with
   | none => exact h1
-  | some sc => exact subCall_sim F hA trivial d p sc h1
+  | some sc => exact subCall_sim F hA hDk trivial d p sc h1
 
 end sim
 
@@ -560,10 +592,38 @@ theorem storeRequest_keep (self : PRef) (f : Flags) (r : Run) : Keep p r (storeR
   | root q => exact setPending_keep _ _
   | eph => exact setPending_keep _ _
 
-/-- every argv element keeps the restored carriers; only `--print_config` touches the request of `p` -/
+theorem dumpBody_keepP (F : Facts) (dk : DK) (t : Tail) (r : Run) : KeepP p r (dumpBody F p dk t r) := by
+  unfold dumpBody
+  refine (noteW_keepP r _).trans (when_keepP _ _ ?_)
+  intro a
+  exact ((when_keepP a _ (fun b => setDk_keepP b dk)).trans (when_keepP _ _ (fun b => noteW_keepP b _))).trans
+    (when_keepP _ _ (fun b => setDk_keepP b dk))
+
+theorem dumpFull_keepP (F : Facts) (dk : DK) (sd : Bool) (t : Tail) (fail : Outcome) (r : Run) :
+    KeepP p r (dumpFull F p dk sd t fail r) := by
+  unfold dumpFull
+  refine (dumpBody_keepP F dk t r).trans (when_keepP _ _ ?_)
+  intro a
+  split
+  · exact halt_keepP _ _
+  · exact (when_keepP _ _ (fun b => setDk_keepP b _)).trans (haltIf_keepP _ _ _)
+
+theorem printAndExit_keep (F : Facts) (hC : F.ctxResetFinally = true) (d : PDesc) (pd : Pending) (t : Tail) (early : Bool)
+    (r : Run) : Keep p r (printAndExit F d p pd t early r) := by
+  unfold printAndExit
+  simp only []
+  refine Keep.trans (withCtx_keepP (p := p) F hC (some true) none ?_ r).1 (live_keep _ ?_)
+  · intro a
+    split
+    · exact halt_keepP _ _
+    · exact dumpFull_keepP F _ _ _ _ a
+  · intro a
+    exact (when_keep _ _ (fun b => setPending_keep b none)).trans (halt_keepP _ _).1
+
+/-- every argv element keeps the restored carriers; only `--print_config` and `--cfg` touch the request of `p` -/
 theorem tokStep_keepP (F : Facts) (hC : F.ctxResetFinally = true) (hL : F.linkedOnFreshOnly = true)
     (hD : F.dcDefaultOnAction = false) (d : PDesc) (self : PRef) (valId : Nat) (t : Tok) (r : Run)
-    (hpc : ∀ f, t.kind ≠ .printConfig f) : KeepP p r (tokStep F d p self valId r t) := by
+    (hpc : t.kind.touchesPending = false) : KeepP p r (tokStep F d p self valId r t) := by
   unfold tokStep
   apply live_keepP
   intro a
@@ -580,7 +640,8 @@ theorem tokStep_keepP (F : Facts) (hC : F.ctxResetFinally = true) (hL : F.linked
     split
     · exact (adaptDc_keepP F hD _ _ _ a).trans (ephParse_keepP F hC _ _ _)
     · exact (adaptDc_keepP F hD _ _ _ a).trans (haltIf_keepP _ _ _)
-  | printConfig f => exact absurd hk (hpc f)
+  | printConfig f => simp [hk, TokKind.touchesPending] at hpc
+  | cfg b => simp [hk, TokKind.touchesPending] at hpc
   | help => exact halt_keepP _ _
   | classHelp trailing =>
     simp only []
@@ -591,20 +652,34 @@ theorem tokStep_keepP (F : Facts) (hC : F.ctxResetFinally = true) (hL : F.linked
 theorem tokStep_keep (F : Facts) (hC : F.ctxResetFinally = true) (hL : F.linkedOnFreshOnly = true)
     (hD : F.dcDefaultOnAction = false) (d : PDesc) (self : PRef) (valId : Nat) (t : Tok) (r : Run) :
     Keep p r (tokStep F d p self valId r t) := by
-  by_cases hpc : ∀ f, t.kind ≠ .printConfig f
-  · exact (tokStep_keepP F hC hL hD d self valId t r hpc).1
-  · have : ∃ f, t.kind = .printConfig f := by
-      apply Classical.byContradiction
-      intro hne
-      exact hpc (fun f hf => hne ⟨f, hf⟩)
-    obtain ⟨f, hf⟩ := this
+  cases hk : t.kind with
+  | printConfig f =>
     unfold tokStep
     apply live_keep
     intro a
-    simp only [hf]
+    simp only [hk]
     split
     · exact (halt_keepP a _).1
     · exact storeRequest_keep self f a
+  | cfg b =>
+    unfold tokStep
+    apply live_keep
+    intro a
+    simp only [hk]
+    split
+    · exact (halt_keepP a _).1
+    · cases self with
+      | root q =>
+        cases a.w.pending p with
+        | some pd => exact printAndExit_keep F hC d pd _ _ a
+        | none => exact Keep.refl p a
+      | sub q i => exact Keep.refl p a
+      | eph => exact Keep.refl p a
+  | plain cls => exact (tokStep_keepP F hC hL hD d self valId t r (by simp [hk, TokKind.touchesPending])).1
+  | deep => exact (tokStep_keepP F hC hL hD d self valId t r (by simp [hk, TokKind.touchesPending])).1
+  | dc a b c => exact (tokStep_keepP F hC hL hD d self valId t r (by simp [hk, TokKind.touchesPending])).1
+  | help => exact (tokStep_keepP F hC hL hD d self valId t r (by simp [hk, TokKind.touchesPending])).1
+  | classHelp tr => exact (tokStep_keepP F hC hL hD d self valId t r (by simp [hk, TokKind.touchesPending])).1
 
 theorem runToks_keep (F : Facts) (hC : F.ctxResetFinally = true) (hL : F.linkedOnFreshOnly = true)
     (hD : F.dcDefaultOnAction = false) (d : PDesc) (self : PRef) (valId : Nat) (toks : List Tok) :
@@ -618,51 +693,40 @@ theorem runToks_keep (F : Facts) (hC : F.ctxResetFinally = true) (hL : F.linkedO
 
 theorem runToks_keepP (F : Facts) (hC : F.ctxResetFinally = true) (hL : F.linkedOnFreshOnly = true)
     (hD : F.dcDefaultOnAction = false) (d : PDesc) (self : PRef) (valId : Nat) (toks : List Tok)
-    (hpc : ∀ t ∈ toks, ∀ f, t.kind ≠ .printConfig f) :
+    (hpc : ∀ t ∈ toks, t.kind.touchesPending = false) :
     ∀ r, KeepP p r (runToks F d p self valId toks r) := by
   induction toks with
   | nil => intro r; exact KeepP.refl p r
   | cons t ts ih =>
     intro r
     simp only [runToks, List.foldl_cons]
-    have ht : ∀ f, t.kind ≠ .printConfig f := hpc t (by simp)
+    have ht : t.kind.touchesPending = false := hpc t (by simp)
     exact (tokStep_keepP F hC hL hD d self valId t r ht).trans (ih (fun t' ht' => hpc t' (by simp [ht'])) _)
 
-theorem vtoks_no_printConfig (vs : List VTok) : ∀ t ∈ vs.map VTok.toTok, ∀ f, t.kind ≠ .printConfig f := by
-  intro t ht f
+theorem vtoks_no_printConfig (vs : List VTok) : ∀ t ∈ vs.map VTok.toTok, t.kind.touchesPending = false := by
+  intro t ht
   simp only [List.mem_map] at ht
   obtain ⟨v, _, rfl⟩ := ht
   unfold VTok.toTok
-  cases v.kind <;> simp
+  cases v.kind <;> simp [TokKind.touchesPending]
 
-theorem dumpBody_keepP (F : Facts) (dk : DK) (t : Tail) (r : Run) : KeepP p r (dumpBody F p dk t r) := by
-  unfold dumpBody
-  refine (noteW_keepP r _).trans (when_keepP _ _ ?_)
-  intro a
-  exact ((when_keepP a _ (fun b => setDk_keepP b dk)).trans (when_keepP _ _ (fun b => noteW_keepP b _))).trans
-    (when_keepP _ _ (fun b => setDk_keepP b dk))
-
-theorem revalidate_keepP (F : Facts) (hL : F.linkedOnFreshOnly = true) (hD : F.dcDefaultOnAction = false)
+theorem revalidate_keepP (F : Facts) (hC : F.ctxResetFinally = true) (hL : F.linkedOnFreshOnly = true)
+    (hD : F.dcDefaultOnAction = false)
     (valId : Nat) (t : Tail) (fail : Outcome) (r : Run) : KeepP p r (revalidate F p valId t fail r) := by
   unfold revalidate
-  exact ((when_keepP r _ (fun b => adaptClass_keepP F hL b)).trans
+  apply withCtx_keepP F hC
+  intro a
+  exact ((when_keepP a _ (fun b => adaptClass_keepP F hL b)).trans
     (when_keepP _ _ (fun b => adaptDc_keepP F hD _ _ _ b))).trans (haltIf_keepP _ _ _)
 
-theorem validateBody_keepP (F : Facts) (hL : F.linkedOnFreshOnly = true) (hD : F.dcDefaultOnAction = false)
+theorem validateBody_keepP (F : Facts) (hC : F.ctxResetFinally = true) (hL : F.linkedOnFreshOnly = true)
+    (hD : F.dcDefaultOnAction = false)
     (valId : Nat) (t : Tail) (fail : Outcome) (r : Run) : KeepP p r (validateBody F p valId t fail r) := by
   unfold validateBody
   simp only []
   split
   · exact noteW_keepP r _
-  · exact (noteW_keepP r _).trans (revalidate_keepP F hL hD valId t fail _)
-
-theorem printAndExit_keep (F : Facts) (hC : F.ctxResetFinally = true) (pd : Pending) (t : Tail) (r : Run) :
-    Keep p r (printAndExit F p pd t r) := by
-  unfold printAndExit
-  have h1 := withCtx_keepP (p := p) F hC (some true) none
-    (body := dumpBody F p { skipValidation := false, skipNone := pd.flags.skipNull } t)
-    (fun a => dumpBody_keepP F _ t a) r
-  exact (h1.1.trans (when_keep _ _ (fun b => setPending_keep b none))).trans (halt_keepP _ _).1
+  · exact (noteW_keepP r _).trans (revalidate_keepP F hC hL hD valId t fail _)
 
 /-- `_parse_common` keeps the restored carriers; it leaves the request of `p` alone when there is none -/
 theorem parseCommon_keep (F : Facts) (hC : F.ctxResetFinally = true) (hL : F.linkedOnFreshOnly = true)
@@ -677,11 +741,11 @@ theorem parseCommon_keep (F : Facts) (hC : F.ctxResetFinally = true) (hL : F.lin
     split
     · exact ⟨(halt_keepP r _).1, fun h => h⟩
     · cases hpp : r.w.pending p with
-      | some pd => exact ⟨printAndExit_keep F hC pd t r, fun h => by cases h⟩
+      | some pd => exact ⟨printAndExit_keep F hC d pd t false r, fun h => by cases h⟩
       | none =>
         simp only []
         have h1 := withCtx_keepP (p := p) F hC none (some (.root p))
-          (fun a => validateBody_keepP F hL hD valId t (errOutcome d) a) r
+          (fun a => validateBody_keepP F hC hL hD valId t (errOutcome d) a) r
         exact ⟨h1.1, fun _ => by rw [h1.2, hpp]⟩
 
 theorem subCall_keep (F : Facts) (hC : F.ctxResetFinally = true) (hL : F.linkedOnFreshOnly = true)
@@ -789,17 +853,19 @@ theorem parseOther_congr (F : Facts) (hF : Sound F = true) (d : PDesc) (p : Nat)
   apply live_sim
   · intro a a' ha
     -- nothing in a non-argv input reads `parser.args`
-    exact withCtx_sim F _ _ (fun _ _ hh => runToks_sim F d p _ _ _ (Or.inr (vtoks_no_classHelp i.toks)) hh) ha
+    exact withCtx_sim F _ _ (fun _ _ hh => runToks_sim F hDk d p _ _ _ (Or.inr (vtoks_no_classHelp i.toks)) hh) ha
   · exact haltIf_sim _ _ (start_sim h)
 
-theorem dumpOp_congr (F : Facts) (hF : Sound F = true) (p : Nat) (c : CfgArg) (dk : DK) {w w' : World}
-    (h : Agree w w') : (dumpOp F p c dk w).2 = (dumpOp F p c dk w').2 := by
+theorem dumpOp_congr (F : Facts) (hF : Sound F = true) (p : Nat) (c : CfgArg) (dk : DK) (sd : Bool) {w w' : World}
+    (h : Agree w w') : (dumpOp F p c dk sd w).2 = (dumpOp F p c dk sd w').2 := by
   obtain ⟨_, _, _, _, _, hDk, _, _, _⟩ := sound_cases hF
   unfold dumpOp
   simp only []
   apply finish_congr (K := False) (S := fun _ => False)
-  apply live_sim (fun _ _ hh => dumpBody_sim F hDk p dk c.tail hh)
-  exact when_sim _ (fun _ _ hh => validateBody_sim F p _ _ _ hh) (start_sim h)
+  apply live_sim
+  · intro a a' ha
+    exact live_sim (fun _ _ hh => haltIf_sim _ _ hh) (dumpFull_sim F hDk p dk sd c.tail _ ha)
+  · exact live_sim (fun _ _ hh => when_sim _ (fun _ _ hh2 => validateBody_sim F p _ _ _ hh2) hh) (haltIf_sim _ _ (start_sim h))
 
 theorem validateOp_congr (F : Facts) (p : Nat) (c : CfgArg) {w w' : World}
     (h : Agree w w') : (validateOp F p c w).2 = (validateOp F p c w').2 := by
@@ -821,7 +887,7 @@ theorem write_before_read (F : Facts) (hF : Sound F = true) (D : Nat → PDesc) 
   | parseArgs a => exact parseArgs_congr F hF (D p) p a h
   | parseOther i => exact parseOther_congr F hF (D p) p i h
   | getDefaults => rfl
-  | dump c dk => exact dumpOp_congr F hF p c dk h
+  | dump c dk sd => exact dumpOp_congr F hF p c dk sd h
   | validate c => exact validateOp_congr F p c h
   | instantiate c => exact instantiateOp_congr F p c h
   | formatHelp => rfl
@@ -880,20 +946,21 @@ theorem inv_of_keepP {D : Nat → PDesc} {w : World} {p : Nat} {r : Run} (hw : I
     (hk : KeepP p ({ w := w } : Run) r) : Inv D r.w :=
   inv_of_keep hw rfl hk.1 (by rw [hk.2]; exact hw.pending p)
 
-theorem dumpOp_restores (F : Facts) (hF : Sound F = true) (D : Nat → PDesc) (p : Nat) (c : CfgArg) (dk : DK) {w : World}
-    (hw : Inv D w) : Inv D (dumpOp F p c dk w).1 := by
-  obtain ⟨_, _, _, _, _, _, hD, hL, _⟩ := sound_cases hF
+theorem dumpOp_restores (F : Facts) (hF : Sound F = true) (D : Nat → PDesc) (p : Nat) (c : CfgArg) (dk : DK) (sd : Bool) {w : World}
+    (hw : Inv D w) : Inv D (dumpOp F p c dk sd w).1 := by
+  obtain ⟨_, hC, _, _, _, _, hD, hL, _⟩ := sound_cases hF
   unfold dumpOp
   simp only [finish]
   apply inv_of_keepP (p := p) hw
-  exact (when_keepP _ _ (fun b => validateBody_keepP F hL hD _ _ _ b)).trans (live_keepP _ (fun b => dumpBody_keepP F dk c.tail b))
+  exact ((haltIf_keepP _ _ _).trans (live_keepP _ (fun e => when_keepP e _ (fun b => validateBody_keepP F hC hL hD _ _ _ b)))).trans
+    (live_keepP _ (fun b => (dumpFull_keepP F dk sd c.tail _ b).trans (live_keepP _ (fun e => haltIf_keepP e _ _))))
 
 theorem validateOp_restores (F : Facts) (hF : Sound F = true) (D : Nat → PDesc) (p : Nat) (c : CfgArg) {w : World}
     (hw : Inv D w) : Inv D (validateOp F p c w).1 := by
-  obtain ⟨_, _, _, _, _, _, hD, hL, _⟩ := sound_cases hF
+  obtain ⟨_, hC, _, _, _, _, hD, hL, _⟩ := sound_cases hF
   unfold validateOp
   simp only [finish]
-  exact inv_of_keepP (p := p) hw (validateBody_keepP F hL hD _ _ _ _)
+  exact inv_of_keepP (p := p) hw (validateBody_keepP F hC hL hD _ _ _ _)
 
 theorem instantiateOp_restores (F : Facts) (hF : Sound F = true) (D : Nat → PDesc) (p : Nat) (c : CfgArg) {w : World}
     (hw : Inv D w) : Inv D (instantiateOp F p c w).1 := by
@@ -913,7 +980,7 @@ theorem restores (F : Facts) (hF : Sound F = true) (D : Nat → PDesc) : Restore
   | parseArgs a => exact parseArgs_restores F hF D p a hw
   | parseOther i => exact parseOther_restores F hF D p i hw
   | getDefaults => exact hw
-  | dump c dk => exact dumpOp_restores F hF D p c dk hw
+  | dump c dk sd => exact dumpOp_restores F hF D p c dk sd hw
   | validate c => exact validateOp_restores F hF D p c hw
   | instantiate c => exact instantiateOp_restores F hF D p c hw
   | formatHelp => exact hw
